@@ -872,6 +872,107 @@ Proof.
   rewrite Forall_forall in Hall. specialize (Hall j Hv). lia.
 Qed.
 
+(* ---------------------------------------------------------------------- scope_to_value on sorted windows *)
+Section Scope.
+  Context {V : Type}.
+  Variable veqb vltb : V -> V -> bool.
+  Hypothesis veqb_eq : forall x y, veqb x y = true <-> x = y.
+  Hypothesis ltb_irrefl : forall x, vltb x x = false.
+  Hypothesis ltb_trans : forall x y z, vltb x y = true -> vltb y z = true -> vltb x z = true.
+  Hypothesis ltb_total : forall x y, vltb x y = false -> vltb y x = false -> x = y.
+
+  (* non-decreasing *)
+  Definition sorted_asc (w : list V) : Prop := StronglySorted (fun x y => vltb y x = false) w.
+
+  Let nlt (v : V) (w : list V) := length (filter (fun x => vltb x v) w).
+  Let neq (v : V) (w : list V) := length (filter (fun x => veqb x v) w).
+
+  Lemma nlt_zero v (t : list V) : Forall (fun y => vltb y v = false) t -> nlt v t = 0.
+  Proof.
+    unfold nlt. induction 1 as [|y t Hy _ IH]; [reflexivity|]. cbn [filter]. rewrite Hy. exact IH.
+  Qed.
+
+  Lemma neq_zero v (t : list V) : Forall (fun y => y <> v) t -> neq v t = 0.
+  Proof.
+    unfold neq. induction 1 as [|y t Hy _ IH]; [reflexivity|]. cbn [filter].
+    destruct (veqb y v) eqn:E; [apply veqb_eq in E; contradiction|exact IH].
+  Qed.
+
+  Lemma nlt_neq_le v (w : list V) : nlt v w + neq v w <= length w.
+  Proof.
+    unfold nlt, neq. induction w as [|x t IH]; [cbn; lia|]. cbn [filter length].
+    destruct (vltb x v) eqn:E1; destruct (veqb x v) eqn:E2; cbn [length]; try lia.
+    apply veqb_eq in E2. subst. rewrite ltb_irrefl in E1. discriminate.
+  Qed.
+
+  Lemma scope_sorted_aux v (w : list V) :
+    sorted_asc w -> forall k x, nth_error w k = Some x ->
+    (x = v <-> nlt v w <= k < nlt v w + neq v w).
+  Proof.
+    induction 1 as [|x0 t Hs IH Hall]; intros k x Hk; [destruct k; discriminate|].
+    unfold nlt, neq in *. cbn [filter].
+    destruct (vltb x0 v) eqn:Elt.
+    - (* x0 < v *)
+      assert (Hne : veqb x0 v = false).
+      { destruct (veqb x0 v) eqn:E; [|reflexivity]. apply veqb_eq in E. subst. rewrite ltb_irrefl in Elt. discriminate. }
+      rewrite Hne. cbn [length]. destruct k as [|k]; cbn [nth_error] in Hk.
+      + inversion Hk; subst. split; [|lia]. intros ->. rewrite ltb_irrefl in Elt. discriminate.
+      + specialize (IH k x Hk). split; [intros Hx; apply IH in Hx; lia|intros Hx; apply IH; lia].
+    - destruct (veqb x0 v) eqn:Eeq.
+      + (* x0 = v: nothing smaller follows *)
+        apply veqb_eq in Eeq. subst x0.
+        assert (Hz : length (filter (fun y => vltb y v) t) = 0) by (apply (nlt_zero v t Hall)).
+        rewrite Hz in *. cbn [length]. destruct k as [|k]; cbn [nth_error] in Hk.
+        * inversion Hk; subst. split; [lia|reflexivity].
+        * specialize (IH k x Hk). split; [intros Hx; apply IH in Hx; lia|intros Hx; apply IH; lia].
+      + (* v < x0: everything that follows is larger than v *)
+        assert (Hgt : vltb v x0 = true).
+        { destruct (vltb v x0) eqn:E; [reflexivity|].
+          pose proof (ltb_total _ _ Elt E) as ->.
+          assert (veqb v v = true) by (apply veqb_eq; reflexivity). congruence. }
+        assert (Hall1 : Forall (fun y => vltb y v = false) t).
+        { eapply Forall_impl; [|exact Hall]. intros y Hy. cbn beta in Hy.
+          destruct (vltb y v) eqn:E; [|reflexivity].
+          rewrite (ltb_trans _ _ _ E Hgt) in Hy. discriminate. }
+        assert (Hall2 : Forall (fun y => y <> v) t).
+        { eapply Forall_impl; [|exact Hall]. intros y Hy ->. cbn beta in Hy. congruence. }
+        pose proof (nlt_zero v t Hall1) as Hz1. pose proof (neq_zero v t Hall2) as Hz2.
+        unfold nlt, neq in Hz1, Hz2. rewrite Hz1, Hz2. cbn [length].
+        split; [|lia]. intros ->. destruct k as [|k]; cbn [nth_error] in Hk.
+        * inversion Hk; subst. rewrite ltb_irrefl in Hgt. discriminate.
+        * apply nth_error_In in Hk. rewrite Forall_forall in Hall2. exfalso. exact (Hall2 v Hk eq_refl).
+  Qed.
+
+  (* Column::scope_to_value: inside a sorted window, the returned range is exactly where v is *)
+  Lemma scope_to_value_spec v a b (l : list V) :
+    sorted_asc (iter_range a b l) ->
+    let r := scope_to_value veqb vltb v a b l in
+    win_start a l <= fst r <= snd r /\ snd r <= win_end a b l /\
+    forall k, win_start a l <= k < win_end a b l ->
+              (nth_error l k = Some v <-> fst r <= k < snd r).
+  Proof.
+    intros Hs. unfold scope_to_value. cbn zeta. cbn [fst snd].
+    set (w := iter_range a b l) in *.
+    set (nl := length (filter (fun x => vltb x v) w)).
+    set (ne := length (filter (fun x => veqb x v) w)).
+    pose proof (win_bounds a b l) as [Hb1 Hb2].
+    assert (Hlen : length w = win_end a b l - win_start a l) by apply iter_range_length.
+    assert (Hsum : nl + ne <= length w) by apply nlt_neq_le.
+    split; [lia|]. split; [lia|]. intros k Hk.
+    assert (Hnth : nth_error w (k - win_start a l) = nth_error l k).
+    { unfold w. rewrite iter_range_nth.
+      replace (k - win_start a l <? win_end a b l - win_start a l) with true
+        by (symmetry; apply Nat.ltb_lt; lia).
+      f_equal. lia. }
+    destruct (nth_error l k) as [x|] eqn:Ex.
+    - pose proof (scope_sorted_aux v w Hs (k - win_start a l) x Hnth) as H.
+      change (nlt v w) with nl in H. change (neq v w) with ne in H. split.
+      + intros Hx. inversion Hx; subst x. destruct H as [H _]. specialize (H eq_refl). lia.
+      + intros Hr. f_equal. apply H. lia.
+    - apply nth_error_None in Ex. lia.
+  Qed.
+End Scope.
+
 (* ---------------------------------------------------------------------- the statements pinned in Props/C34.v *)
 Lemma c34_splice_spec : forall (V : Type) (i del : nat) (vals l r : list V),
   splice i del vals l = Ok r <->
@@ -1090,3 +1191,18 @@ Proof.
   split; [apply find_by_value_spec|apply find_first_spec].
 Qed.
 
+Lemma c34_scope_to_value_spec : forall (V : Type) (veqb vltb : V -> V -> bool),
+  (forall x y, veqb x y = true <-> x = y) ->
+  (forall x, vltb x x = false) ->
+  (forall x y z, vltb x y = true -> vltb y z = true -> vltb x z = true) ->
+  (forall x y, vltb x y = false -> vltb y x = false -> x = y) ->
+  forall (v : V) (a b : nat) (l : list V),
+  sorted_asc vltb (iter_range a b l) ->
+  win_start a l <= fst (scope_to_value veqb vltb v a b l) <= snd (scope_to_value veqb vltb v a b l) /\
+  snd (scope_to_value veqb vltb v a b l) <= win_end a b l /\
+  forall k, win_start a l <= k < win_end a b l ->
+            (get k l = Some v <-> fst (scope_to_value veqb vltb v a b l) <= k < snd (scope_to_value veqb vltb v a b l)).
+Proof.
+  intros V veqb vltb H1 H2 H3 H4 v a b l Hs.
+  exact (scope_to_value_spec veqb vltb H1 H2 H3 H4 v a b l Hs).
+Qed.
